@@ -174,6 +174,7 @@ type State struct {
 	base  *heapBase
 	alloc *Term
 	pc    []*Term
+	path  []*Term // branch conditions only (guards used when states are merged)
 	dead  bool
 	dirty []*Term // addresses of invariant-bearing objects written since the last boundary
 	quiet bool    // spec evaluation inside binders: do not record facts
@@ -189,6 +190,7 @@ func (s *State) clone() *State {
 		n.heap[k] = v
 	}
 	n.pc = append([]*Term{}, s.pc...)
+	n.path = append([]*Term{}, s.path...)
 	n.dirty = append([]*Term{}, s.dirty...)
 	return n
 }
@@ -201,6 +203,18 @@ func (s *State) assume(t *Term) {
 		s.dead = true
 	}
 	s.pc = append(s.pc, t)
+}
+
+// branch records a control-flow condition: a fact on this path and part of the merge guard.
+func (s *State) branch(t *Term) {
+	if t.IsTrue() {
+		return
+	}
+	if t.IsFalse() {
+		s.dead = true
+	}
+	s.pc = append(s.pc, t)
+	s.path = append(s.path, t)
 }
 
 func (e *Engine) heapGet(s *State, key string, sort Sort) *Term {
@@ -251,22 +265,46 @@ func (e *Engine) merge(states []*State) *State {
 		return live[0]
 	}
 	ts := e.ts
-	// common pc prefix
+	// common prefixes of facts and of branch conditions
 	pre := len(live[0].pc)
+	ppre := len(live[0].path)
 	for _, s := range live[1:] {
 		k := 0
 		for k < pre && k < len(s.pc) && s.pc[k] == live[0].pc[k] {
 			k++
 		}
 		pre = k
+		k = 0
+		for k < ppre && k < len(s.path) && s.path[k] == live[0].path[k] {
+			k++
+		}
+		ppre = k
 	}
 	guards := make([]*Term, len(live))
 	for i, s := range live {
-		guards[i] = ts.And(s.pc[pre:]...)
+		guards[i] = ts.And(s.path[ppre:]...)
 	}
 	out := &State{vars: map[*types.Var]*Value{}, heap: map[string]*Term{}}
 	out.pc = append([]*Term{}, live[0].pc[:pre]...)
+	out.path = append([]*Term{}, live[0].path[:ppre]...)
 	out.pc = append(out.pc, ts.Or(guards...))
+	have := map[int]bool{}
+	for _, f := range out.pc {
+		have[f.id] = true
+	}
+	for i, s := range live {
+		for _, f := range s.pc[pre:] {
+			if have[f.id] {
+				continue
+			}
+			g := ts.Implies(guards[i], f)
+			if g.IsTrue() || have[g.id] {
+				continue
+			}
+			have[g.id] = true
+			out.pc = append(out.pc, g)
+		}
+	}
 	// alloc
 	out.alloc = live[len(live)-1].alloc
 	for i := len(live) - 2; i >= 0; i-- {
